@@ -16,14 +16,18 @@ import re, subprocess, os
 K = r"(?P<k>128|192|256)"
 RULES = [
     # --- AES-CBC / CBCS
-    (r"^(submit|flush)_job_aes" + K + r"_enc_(x\d+_)?(sse|avx|avx2|avx512|vaes_avx512)", dict(c=["CBC"], dir="enc", stage="C")),
-    (r"^(submit|flush)_job_aes" + K + r"_enc_(sse|avx|vaes)", dict(c=["CBC"], dir="enc", stage="C")),
+    (r"^(submit|flush)_job_aes" + K + r"_enc_(x\d+_)?(sse|avx|avx2|avx512|vaes_avx512)", dict(c=["CBC", "DOCSIS_SEC_BPI"], dir="enc", stage="C")),
+    (r"^(submit|flush)_job_aes" + K + r"_enc_(sse|avx|vaes)", dict(c=["CBC", "DOCSIS_SEC_BPI"], dir="enc", stage="C")),
+    (r"^(submit|flush)_job_aes" + K + r"_cbc_enc_", dict(c=["CBC", "DOCSIS_SEC_BPI"], dir="enc", stage="C")),
     (r"^aes_cbc_dec_" + K + r"_", dict(c=["CBC", "DOCSIS_SEC_BPI"], dir="dec")),
+    (r"^aes_docsis" + K + r"_dec_crc32_", dict(c=["DOCSIS_SEC_BPI"], h=["DOCSIS_CRC32"], dir="dec", stage="C")),
+    (r"^aes_cfb_dec_" + K + r"_", dict(c=["CFB"], dir="dec")),
+    (r"^(submit|flush)_job_aes" + K + r"_cfb_enc_", dict(c=["CFB"], dir="enc", stage="C")),
     (r"^(submit|flush)_job_aes128_cbcs_1_9_enc_", dict(c=["CBCS_1_9"], key=128, dir="enc", stage="C")),
     (r"^aes_cbcs_1_9_dec_128_", dict(c=["CBCS_1_9"], key=128, dir="dec")),
     # --- AES-CTR / CCM / ECB / CFB
     (r"^aes_cntr_bit_" + K + r"_", dict(c=["CNTR_BITLEN"])),
-    (r"^aes_cntr_ccm_" + K + r"_", dict(c=["CCM"])),
+    (r"^aes_cntr_ccm_" + K + r"_", dict(c=["CCM"], h=["AES_CCM"], stage="C")),
     (r"^aes_cntr_" + K + r"_", dict(c=["CNTR"])),
     (r"^aes_ecb_enc_" + K + r"_", dict(c=["ECB"], dir="enc")),
     (r"^aes_ecb_dec_" + K + r"_", dict(c=["ECB"], dir="dec")),
@@ -32,12 +36,15 @@ RULES = [
     (r"^(submit|flush)_job_aes_cfb_" + K + r"_enc_", dict(c=["CFB"], dir="enc", stage="C")),
     (r"^aes_cfb_" + K + r"_one_", dict(c=["DOCSIS_SEC_BPI"])),
     # --- GCM
-    (r"^aes_gcm_enc_" + K + r"(_update|_finalize)?_", dict(c=["GCM", "GCM_SGL"], h=["AES_GMAC", "GCM_SGL"], dir="enc")),
-    (r"^aes_gcm_dec_" + K + r"(_update|_finalize)?_", dict(c=["GCM", "GCM_SGL"], h=["AES_GMAC", "GCM_SGL"], dir="dec")),
-    (r"^aes_gcm_(enc|dec)_var_iv_" + K + r"_", dict(c=["GCM"])),
+    (r"^aes_gcm_(enc|dec)_" + K + r"_finalize_", dict(c=["GCM", "GCM_SGL"], h=["AES_GMAC", "GCM_SGL"])),  # tag finalisation is direction-independent
+    (r"^aes_gcm_enc_" + K + r"(_update)?_", dict(c=["GCM", "GCM_SGL"], h=["AES_GMAC", "GCM_SGL"], dir="enc")),
+    (r"^aes_gcm_dec_" + K + r"(_update)?_", dict(c=["GCM", "GCM_SGL"], h=["AES_GMAC", "GCM_SGL"], dir="dec")),
+    (r"^aes_gcm_enc_var_iv_" + K + r"_", dict(c=["GCM"], h=["AES_GMAC"], dir="enc", stage="B")),
+    (r"^aes_gcm_dec_var_iv_" + K + r"_", dict(c=["GCM"], h=["AES_GMAC"], dir="dec", stage="B")),
     (r"^aes_gcm_init(_var_iv)?_" + K + r"_", dict(c=["GCM_SGL"], h=["GCM_SGL"])),
     (r"^imb_aes_gmac_(init|update|finalize)_" + K + r"_", dict(h=["AES_GMAC_{k}"])),
-    (r"^ghash_(sse|avx|vaes)", dict(h=["GHASH", "SNOW_V_AEAD"])),
+    (r"^ghash_pre_", dict(c=["SNOW_V_AEAD"], h=["GHASH", "SNOW_V_AEAD"])),
+    (r"^ghash_(sse|avx|vaes)", dict(c=["SNOW_V_AEAD"], h=["GHASH", "SNOW_V_AEAD"])),
     # --- DOCSIS / DES / PON
     (r"^(submit|flush)_job_aes_docsis" + K + r"_(enc|dec)_crc32_", dict(c=["DOCSIS_SEC_BPI"], h=["DOCSIS_CRC32"], stage="C")),
     (r"^(submit|flush)_job_aes_docsis" + K + r"_enc_", dict(c=["DOCSIS_SEC_BPI"], dir="enc", stage="C")),
@@ -49,7 +56,8 @@ RULES = [
     (r"^(submit|flush)_job_des_cbc_enc_", dict(c=["DES"], dir="enc", stage="C")), (r"^(submit|flush)_job_des_cbc_dec_", dict(c=["DES"], dir="dec", stage="C")),
     (r"^(submit|flush)_job_3des_cbc_enc_", dict(c=["DES3"], dir="enc", stage="C")), (r"^(submit|flush)_job_3des_cbc_dec_", dict(c=["DES3"], dir="dec", stage="C")),
     (r"^(submit|flush)_job_docsis_des_enc_", dict(c=["DOCSIS_DES"], dir="enc", stage="C")), (r"^(submit|flush)_job_docsis_des_dec_", dict(c=["DOCSIS_DES"], dir="dec", stage="C")),
-    (r"^submit_job_pon_enc_", dict(c=["PON_AES_CNTR"], dir="enc", stage="C")), (r"^submit_job_pon_dec_", dict(c=["PON_AES_CNTR"], dir="dec", stage="C")),
+    (r"^submit_job_pon_enc_", dict(c=["PON_AES_CNTR"], h=["PON_CRC_BIP"], dir="enc", stage="B")),
+    (r"^submit_job_pon_dec_", dict(c=["PON_AES_CNTR"], h=["PON_CRC_BIP"], dir="dec", stage="B")),
     # --- stream ciphers
     (r"^(submit|flush)_job_zuc256_eea3_", dict(c=["ZUC_EEA3"], key=256, stage="C")),
     (r"^(submit|flush)_job_zuc_eea3_", dict(c=["ZUC_EEA3"], key=128, stage="C")),
@@ -62,7 +70,7 @@ RULES = [
     (r"^submit_job_chacha20_enc_dec_", dict(c=["CHACHA20"], stage="C")),
     (r"^aead_chacha20_poly1305_sgl_", dict(c=["CHACHA20_POLY1305_SGL"], h=["CHACHA20_POLY1305_SGL"], stage="B")),
     (r"^aead_chacha20_poly1305_", dict(c=["CHACHA20_POLY1305"], h=["CHACHA20_POLY1305"], stage="B")),
-    (r"^snow_v_aead_init_", dict(c=["SNOW_V_AEAD"])), (r"^snow_v_(sse|avx)", dict(c=["SNOW_V", "SNOW_V_AEAD"])),
+    (r"^snow_v_aead_init_", dict(c=["SNOW_V_AEAD"], stage="C")), (r"^snow_v_(sse|avx)", dict(c=["SNOW_V", "SNOW_V_AEAD"], stage="C")),
     (r"^sm4_ecb_", dict(c=["SM4_ECB"])), (r"^sm4_cbc_enc_", dict(c=["SM4_CBC"], dir="enc")), (r"^sm4_cbc_dec_", dict(c=["SM4_CBC"], dir="dec")),
     (r"^sm4_ctr_", dict(c=["SM4_CNTR"])), (r"^sm4_gcm_", dict(c=["SM4_GCM"], h=["SM4_GCM"])), (r"^imb_sm4_gcm", dict(c=["SM4_GCM"], h=["SM4_GCM"])),
     # --- hashes / MACs
@@ -77,7 +85,7 @@ RULES = [
     (r"^(submit|flush)_job_sha1_", dict(h=["SHA_1"], stage="A")), (r"^(submit|flush)_job_sha224_", dict(h=["SHA_224"], stage="A")),
     (r"^(submit|flush)_job_sha256_", dict(h=["SHA_256"], stage="A")), (r"^(submit|flush)_job_sha384_", dict(h=["SHA_384"], stage="A")),
     (r"^(submit|flush)_job_sha512_", dict(h=["SHA_512"], stage="A")),
-    (r"^sm3_hmac_submit_", dict(h=["HMAC_SM3"])), (r"^sm3_msg_submit_", dict(h=["SM3"])),
+    (r"^sm3_hmac_submit_", dict(h=["HMAC_SM3"], stage="A")), (r"^sm3_msg_submit_", dict(h=["SM3"], stage="A")),
     (r"^poly1305_mac_", dict(h=["POLY1305"])),
     (r"^crc32_sctp_", dict(h=["CRC32_SCTP"])), (r"^crc32_wimax_ofdma_data_", dict(h=["CRC32_WIMAX_OFDMA_DATA"])),
     (r"^crc24_lte_a_", dict(h=["CRC24_LTE_A"])), (r"^crc24_lte_b_", dict(h=["CRC24_LTE_B"])), (r"^crc16_x25_", dict(h=["CRC16_X25"])),
@@ -85,7 +93,7 @@ RULES = [
     (r"^crc8_wimax_ofdma_hcs_", dict(h=["CRC8_WIMAX_OFDMA_HCS"])), (r"^crc7_fp_header_", dict(h=["CRC7_FP_HEADER"])), (r"^crc6_iuup_header_", dict(h=["CRC6_IUUP_HEADER"])),
 ]
 # helpers that are no algorithm kernels: never constrain the suite
-NEUTRAL = re.compile(r"^(memcpy|memset|memcmp|imb_clear_mem|clear_mem|force_memset_zero|safe_memcpy|memcpy_fn_|save_xmms|restore_xmms|"
+NEUTRAL = re.compile(r"^(nondet_|malloc|calloc|realloc|free|memalign|strlen|strcmp|strncmp|memmove|memcpy|memset|memcmp|imb_clear_mem|clear_mem|force_memset_zero|safe_memcpy|memcpy_fn_|save_xmms|restore_xmms|"
                      r"clear_scratch_|cpu_feature_|ooo_mgr_.*_reset$|__CPROVER|imb_set_errno|imb_get_errno|strerror|printf|fprintf|abort)")
 
 
@@ -144,12 +152,20 @@ def gen(funcs, skip=()):
              "IMB_JOB *g_parked; /* ghost: a job of the same manager submitted earlier and not yet returned */",
              "_Bool nondet_bool(void); int nondet_int(void); unsigned long nondet_ulong(void);",
              "static void ev_log(const int id) { if (g_ev_n < EV_MAX) g_ev[g_ev_n] = id; g_ev_n++; }",
+             "#ifdef LANE_MODEL_EXTERN",
+             "IMB_JOB *lane_model(IMB_JOB *job, const int bit);   /* the harness supplies its own manager model */",
+             "#define LANE_FLUSH_ARG(j) ((IMB_JOB *) 0)           /* flush_*(mgr, job): the job argument is not a submission */",
+             "#else",
+             "#define LANE_FLUSH_ARG(j) (j)",
              "static IMB_JOB *lane_model(IMB_JOB *job, const int bit) {",
              "        IMB_JOB *r = 0;",
              "        if (nondet_bool()) return 0;",
-             "        if (job != 0 && nondet_bool()) r = job; else r = g_parked;",
+             "        /* a manager can only hand back a job parked in it: one whose stage is outstanding */",
+             "        if (job != 0 && (job->status & bit) == 0 && nondet_bool()) r = job; else r = g_parked;",
+             "        if (r != 0 && (r->status & bit) != 0) return 0;",
              "        if (r != 0) r->status |= bit;",
-             "        return r; }"]
+             "        return r; }",
+             "#endif"]
     names, problems, info = [], [], []
     for name, typ in funcs:
         if name in skip or NEUTRAL.search(name):
@@ -160,8 +176,7 @@ def gen(funcs, skip=()):
             problems.append("cannot parse type of %s: %s" % (name, typ))
             continue
         if cl is None:
-            problems.append("no naming rule classifies kernel symbol %s" % name)
-            continue
+            cl = {"unclassified": True, "key": -1, "stage": "C"}
         ret, ps = m.group(1).strip(), split_params(m.group(2))
         if ps == ["void"]:
             ps = []
@@ -177,15 +192,24 @@ def gen(funcs, skip=()):
                     jobarg = "a%d" % i
             bit = {"C": "IMB_STATUS_COMPLETED_CIPHER", "A": "IMB_STATUS_COMPLETED_AUTH", "B": "IMB_STATUS_COMPLETED"}.get(cl.get("stage"))
             if bit is None:
-                problems.append("job-returning symbol %s has no stage classification" % name)
-                continue
-            if cl.get("stage") == "B" or name.startswith("submit_job_pon") or name.startswith("submit_job_chacha20"):
+                bit = "IMB_STATUS_COMPLETED_CIPHER"
+                info[-1] = dict(info[-1]); info[-1]["key"] = -1   # reached => [INFRA] obligation fires
+            has_mgr = any(re.search(r"MB_MGR_\w+ \*", p) or p.strip() in ("void *", "IMB_MGR *", "struct IMB_MGR *") for p in ps)
+            if cl.get("stage") == "B" or (jobarg and not has_mgr) or name.startswith("submit_job_pon") or name.startswith("submit_job_chacha20"):
                 # synchronous kernels: always complete and return the job they were given
                 body.append("if (%s) %s->status |= %s; return %s;" % (jobarg, jobarg, bit, jobarg))
             else:
-                body.append("return lane_model(%s, %s);" % (jobarg or "0", bit))
+                if jobarg and name.startswith("flush_"):
+                    body.append("return lane_model(LANE_FLUSH_ARG(%s), %s);" % (jobarg, bit))
+                else:
+                    body.append("return lane_model(%s, %s);" % (jobarg or "0", bit))
         elif ret == "void":
-            pass
+            # synchronous kernel that completes its stage on the job it is handed (e.g. aes_docsis*_dec_crc32_*:
+            # the NASM code ORs IMB_STATUS_COMPLETED_CIPHER into job->status itself)
+            jobargs = ["a%d" % i for i, p in enumerate(ps) if re.match(r"^(struct )?IMB_JOB \*$", p)]
+            bit = {"C": "IMB_STATUS_COMPLETED_CIPHER", "A": "IMB_STATUS_COMPLETED_AUTH", "B": "IMB_STATUS_COMPLETED"}.get(cl.get("stage"))
+            if jobargs and bit:
+                body.append("if (%s) %s->status |= %s;" % (jobargs[0], jobargs[0], bit))
         elif "*" in ret:
             body.append("return (%s) 0;" % ret)
         else:
@@ -194,4 +218,10 @@ def gen(funcs, skip=()):
     # classification table for the spec side
     lines.append("#define KIND_N %d" % max(1, len(names)))
     lines.append("static const char *const g_kernel_name[KIND_N + 1] = { %s 0 };" % "".join('"%s", ' % n for n in names))
+    rows = []
+    for cl in info:
+        cm = " | ".join("(1ULL << IMB_CIPHER_%s)" % c for c in cl.get("c", [])) or "0"
+        hm = " | ".join("(1ULL << IMB_AUTH_%s)" % h for h in cl.get("h", [])) or "0"
+        rows.append("{ %s, %s, %d, %d }" % (cm, hm, cl.get("key") or 0, {"enc": 1, "dec": 2}.get(cl.get("dir"), 0)))  # key -1 = unclassified symbol
+    lines.append("static const struct kinfo { uint64_t cmask, hmask; int key, dir; } g_kinfo[KIND_N + 1] = { %s { 0, 0, 0, 0 } };" % "".join(r + ", " for r in rows))
     return "\n".join(lines) + "\n", names, info, problems
